@@ -430,7 +430,7 @@ func raceMain(t *testing.T) {
 	}
 	t0 := time.Now()
 	st := newStats()
-	for k := 0; k < n; k++ {
+	for k := *flagFrom; k < *flagFrom+n; k++ {
 		if *flagBudget > 0 && time.Since(t0).Seconds() > *flagBudget {
 			break
 		}
@@ -459,7 +459,7 @@ func raceMain(t *testing.T) {
 	}
 	finalizeStats(st, t0, false)
 	if *flagOut != "" {
-		writeJSON(filepath.Join(*flagOut, "stats-race.json"), st)
+		writeJSON(filepath.Join(*flagOut, fmt.Sprintf("stats-race-%d.json", *flagFrom)), st)
 	}
 	fmt.Printf("RACE-RUNS %d\n", st.Runs)
 }
